@@ -36,7 +36,7 @@ SHAPES = [(), (1,), (3,), (1, 1), (2, 3)]
 
 
 def BOUNDS(tier):
-    return {"tensor_dims": [1, 2, 3], "batch_shapes": [list(s) for s in SHAPES] + ["(2,1)x(1,3)"], "pool_sizes": [2, 3, 5],
+    return {"tensor_dims": [1, 2, 3], "batch_shapes": [list(s) for s in SHAPES] + ["(2,1)x(1,3)"], "pool_sizes": [2, 3, 5], "input_layouts": ["C", "Fortran", "reversed-stride view", "moved-axis view", "Fortran out= buffer"],
             "lattice": "{-1,0,2}^(d*d), |det|>=1 (d=3: %s)" % ("all 3^9" if tier == "thorough" else "every 7th member")}
 
 
